@@ -240,5 +240,19 @@ def alphabet():
         C("SingleMemory", (), 3, 2),
         C("SingleDiskMove", (), 3),
         C("NoneSchedule", (), 4),
+        # one-parameter neighbours of members above (same shape, one cost or
+        # the trajectory changed): what a memo keyed on too little confuses
+        C("PeriodicDiskRevolve", (1, 3, 1, 2, 2), 9),
+        C("PeriodicDiskRevolve", (1, 1, 1, 5, 2), 9),
+        C("DiskRevolve", (1, 1, 1, 5, 2), 6),
+        C("DiskRevolve", (1, 3, 1, 2, 2), 6),
+        C("HRevolve", (1, 1, 3, 1, 2, 2), 6),
+        C("HRevolve", (1, 1, 1, 1, 2, 5), 6),
+        C("Revolve", (2, 1, 3, 2, 2), 6),
+        C("Multistage", (2, 0, "revolve"), 7),
+        C("Multistage", (3, 0, "revolve"), 9),
+        C("TwoLevel", (3, 1, "RAM", "revolve"), 7),
+        C("TwoLevel", (4, 1, "DISK", "revolve"), 8),
+        C("TwoLevel", (4, 1, "DISK", "maximum"), 8),
     ]
     return full, full[:12]
